@@ -20,7 +20,7 @@ def nontrivial(prog):
 def main(tier):
     from . import execprops
     return passes.run_property(
-        PROP, tier, CONFIGS, lambda p, rng: [('expand_subcircuits', [])], owned, nontrivial,
+        PROP, tier, CONFIGS, lambda p, rng: [('expand_subcircuits', []), ('expand_subcircuits_defs', []), ('expand_subcircuits_again', [])], owned, nontrivial,
         'complete programs of the AstEnum builder machine with subcircuit blocks at top level, in loops, in sequential '
         'blocks and in macros, with literal / let counts, mixed with explicit prepare_all / measure_all; non-trivial = '
         'distinct programs containing a subcircuit block; plus (dynamic half) programs executed next to their explicit spelling',
